@@ -64,6 +64,18 @@ void use_optional(const T& v)
     (void)*a;
     (void)static_cast<bool>(a);
 }
+// which constructor does a copy of an optional select? (payload types that are constructible from optional itself -
+// bool through the explicit operator bool - would be hijacked by an unconstrained forwarding constructor)
+void optional_copies(nitro::lang::optional<bool>& lvalue, const nitro::lang::optional<bool>& clvalue)
+{
+    nitro::lang::optional<bool> from_lvalue(lvalue);
+    nitro::lang::optional<bool> from_const(clvalue);
+    nitro::lang::optional<bool> from_moved(std::move(lvalue));
+    from_lvalue = clvalue; // (instantiates the copy assignment and operator* for this payload as well)
+    (void)*from_const;
+    (void)static_cast<bool>(from_moved);
+}
+
 void use_optionals()
 {
     use_optional<int>(1);
